@@ -461,7 +461,7 @@ TYPE_INTROSPECTION_FIELD = Field(
     __Type__,
     description="Request the type information of a single type.",
     args=[Argument("name", NonNullType(String))],
-    resolver=lambda p, c, info, **args: info.schema.get_type(args["name"]),
+    resolver=lambda p, c, info, **args: info.schema.types.get(args["name"]),
 )
 
 
